@@ -158,6 +158,25 @@ fn write_archive_calls<W: Write>(dest: W, cfg: &Cfg, files: &[(String, u64)], se
     Ok(w.into_raw())
 }
 
+/// two files open together, fed alternately by `rounds` appends each of a quarter of their size: the number of
+/// non-contiguous runs is 2 x rounds whatever the sizes
+fn write_archive_alternating<W: Write>(dest: W, cfg: &Cfg, files: &[(String, u64)], seed: u64, mode: u8) -> Result<W, String> {
+    let mut w = ArchiveWriter::from_config(dest, cfg.writer_config()).map_err(|e| format!("open:{}", err_class(&e)))?;
+    let rounds = 4u64;
+    let ids: Vec<u64> = files.iter().map(|(n, _)| w.start_file(n).map_err(|e| format!("start:{}", err_class(&e)))).collect::<Result<_, _>>()?;
+    let mut srcs: Vec<GenSrc> = files.iter().enumerate().map(|(i, (_, size))| GenSrc::new(*size, seed.wrapping_add(i as u64 * 7919), mode)).collect();
+    for r in 0..rounds {
+        for (k, (_, size)) in files.iter().enumerate() {
+            let n = if r + 1 == rounds { size - (size / rounds) * (rounds - 1) } else { size / rounds };
+            w.append_file_content(ids[k], n, &mut srcs[k]).map_err(|e| format!("append:{}", err_class(&e)))?;
+            beat();
+        }
+    }
+    for id in ids { w.end_file(id).map_err(|e| format!("end:{}", err_class(&e)))?; }
+    w.finalize().map_err(|e| format!("finalize:{}", err_class(&e)))?;
+    Ok(w.into_raw())
+}
+
 /// piece size of the by-calls cases
 fn piece_for(layers: u8) -> u64 { if layers == 0 { 64 } else { 256 } }
 
@@ -218,7 +237,7 @@ fn run_case(rep: &mut Report, dir: &std::path::Path, layers: u8, files: &[(Strin
     let f = std::fs::File::create(&path).expect("create scratch archive");
     let by_calls = label == "calls";
     let max = if label == "stream-short" { 2048 } else { 0 };
-    let (res, wpeak, wbig) = measured(|| if by_calls { write_archive_calls(FileSink { f, n: 0, max }, &cfg, files, seed, mode, piece_for(layers)) } else { write_archive(FileSink { f, n: 0, max }, &cfg, files, seed, mode) });
+    let (res, wpeak, wbig) = measured(|| if label == "alternate" { write_archive_alternating(FileSink { f: f.try_clone().expect("clone"), n: 0, max }, &cfg, files, seed, mode) } else if by_calls { write_archive_calls(FileSink { f, n: 0, max }, &cfg, files, seed, mode, piece_for(layers)) } else { write_archive(FileSink { f, n: 0, max }, &cfg, files, seed, mode) });
     // the side files of the by-calls shape hold 3 bytes per interleaved append
     let side: u64 = if by_calls { files.iter().map(|f| if f.1.div_ceil(piece_for(layers)) >= 8 { 12 } else { 0 }).sum() } else { 0 };
     let sink = match res {
@@ -323,7 +342,7 @@ pub fn run(ctx: &Ctx) -> Report {
         let total = r["total"].as_u64().unwrap_or(MIB);
         let n = r["files"].as_u64().unwrap_or(1).max(1);
         let files: Vec<(String, u64)> = if r["kind"] == "many-files" { many_files(n.saturating_sub(1)) } else { (0..n).map(|i| (format!("f{i:06}"), total / n)).collect() };
-        let label = if r["kind"] == "calls" { "calls" } else if r["kind"] == "stream-short" { "stream-short" } else { "replay" };
+        let label = if r["kind"] == "calls" { "calls" } else if r["kind"] == "stream-short" { "stream-short" } else if r["kind"] == "alternate" { "alternate" } else { "replay" };
         let p_large = run_case(&mut rep, dir.path(), layers, &files, r["seed"].as_u64().unwrap_or(seed), r["mode"].as_u64().unwrap_or(2) as u8, label);
         if let Some(p) = &p_large {
             check_ceiling(&mut rep, "replay", layers, files.len(), total, p, files.len() * PER_FILE);
@@ -370,6 +389,30 @@ pub fn run(ctx: &Ctx) -> Report {
                 rep.measurements.insert(format!("growth:layers={}", cfg_for(layers).layers_name()),
                     json!({"mib": [m0, m1], "write": [p0.write, p1.write], "repair": [p0.repair, p1.repair], "linear": [p0.linear, p1.linear]}));
             }
+        }
+    }
+    // two files open together and fed alternately, four appends each: 8 runs whatever the sizes — the peak must not
+    // depend on the length of the appended blocks
+    for layers in [0u8, L_ENC | L_COMP] {
+        let (m0, m1) = (4u64, if ctx.thorough { 64u64 } else { 32 });
+        let mut pk: Vec<Peaks> = vec![];
+        for mib in [m0, m1] {
+            let files = vec![("alt/x.bin".to_string(), mib * MIB + 3), ("alt/y.bin".to_string(), mib * MIB + 1)];
+            if let Some(p) = run_case(&mut rep, dir.path(), layers, &files, seed, 2, "alternate") {
+                check_ceiling(&mut rep, "alternate", layers, 2, 2 * mib * MIB, &p, 2 * PER_FILE);
+                pk.push(p);
+            }
+        }
+        if pk.len() == 2 {
+            let (p0, p1) = (pk[0].clone(), pk[1].clone());
+            for (op, a, b) in [("write", p0.write, p1.write), ("repair", p0.repair, p1.repair), ("linear", p0.linear, p1.linear)] {
+                if b > a + TOLERANCE {
+                    rep.violation("oracle", "C15/independent-of-size", json!({"stage": op, "layers": layers, "check": "growth-alternating"}),
+                        &format!("peak live heap during {op} grows with the length of the blocks of two files fed alternately (8 runs in both cases): {a} bytes with {m0} MiB files, {b} bytes with {m1} MiB files (tolerance {TOLERANCE})"),
+                        json!({"kind":"alternate","layers":layers,"files":2,"total": 2 * m1 * MIB + 4,"op":op,"peak_small":a,"peak_large":b,"mib_small":m0,"mib_large":m1}));
+                }
+            }
+            rep.measurements.insert(format!("growth-alternating:layers={}", cfg_for(layers).layers_name()), json!({"mib": [m0, m1], "write": [p0.write, p1.write], "repair": [p0.repair, p1.repair], "linear": [p0.linear, p1.linear]}));
         }
     }
     // a destination that takes at most 2048 bytes per call (legal short writes): what a layer keeps for a slow
